@@ -578,12 +578,12 @@ Proof.
   cbv zeta. rewrite step_cur. unfold reborn.
   destruct (ev_of_cases false h o (snd (step r o))) as [E | [E | (w & k & E)]].
   - rewrite E. cbn [fold_left]. split.
-    + intros Ha. apply (ev_of_access false) in Ha. congruence.
+    + intros Ha. apply (proj2 (ev_of_access false h o _)) in Ha. congruence.
     + intros _. split; [auto|]. intros [Hv | (w & k & D & _)]; [exact Hv|discriminate].
   - rewrite E. cbn [fold_left model_ev mark_viewed i_view]. split; [reflexivity|].
-    intros Ha. apply (ev_of_access false) in E. congruence.
+    intros Ha. apply (proj1 (ev_of_access false h o _)) in E. congruence.
   - rewrite E. cbn [fold_left model_ev]. split.
-    + intros Ha. apply (ev_of_access false) in Ha. congruence.
+    + intros Ha. apply (proj2 (ev_of_access false h o _)) in Ha. congruence.
     + intros _. set (i := inst_or_new (r_insts r) h). split.
       * intros Hv. destruct (i_view i) eqn:V; [now left|]. right. exists w, k. split; [reflexivity|].
         destruct i as [ih iv is id inw]. cbn [i_view] in V. subst iv.
@@ -596,6 +596,20 @@ Qed.
 
 Lemma new_instance_is_new r h : find_inst h (r_insts r) = None -> inst_or_new (r_insts r) h = new_inst h.
 Proof. unfold inst_or_new. now intros ->. Qed.
+
+Theorem view_new_characterisation r o h :
+  let i := inst_or_new (r_insts r) h in
+  let x := snd (step r o) in
+  let i' := inst_or_new (r_insts (fst (step r o))) h in
+  (find_inst h (r_insts r) = None -> i_view i = VNew) /\
+  (accessed (coll_of x) h = true -> i_view i' = VNotNew) /\
+  (accessed (coll_of x) h = false ->
+     (i_view i' = VNew <->
+      i_view i = VNew \/
+      exists w k, ev_of false h o x = [LChange w k] /\ k = KAlive /\ i_state i <> IAlive)).
+Proof.
+  split; [intros H; rewrite (new_instance_is_new r h H); reflexivity|exact (view_step r o h)].
+Qed.
 
 (* ------------------------------------------------------------------ witnesses *)
 Definition mAll : masks := mkM true true true true true true true.
@@ -633,5 +647,21 @@ Lemma class2_witness :
   sole_unregister (events true 1 w2_ops xs).
 Proof.
   cbv zeta. repeat split; try (vm_compute; reflexivity).
+  apply (single_writer_sole 1); [constructor|]. vm_compute. repeat constructor.
+Qed.
+
+(* non-vacuity: dispose, rebirth, read, unregister, rebirth by a single writer *)
+Definition nv_q : qos := mkQ false None None None None false (Some 0).
+Definition nv_ops : list op :=
+  [OpAdd 1 7 KAlive (Some 1) 100 10; OpRead 10 mAll None; OpAdd 1 7 KDisposed (Some 2) 101 20;
+   OpAdd 1 7 KAlive (Some 3) 102 30; OpAdd 1 7 KUnregistered (Some 4) 103 40;
+   OpAdd 1 7 KAlive (Some 5) 104 50].
+Lemma nonvacuous :
+  let xs := snd (run_obs (init_reader nv_q) nv_ops) in
+  all_stored xs /\ sole_unregister (events true 7 nv_ops xs) /\
+  inst_or_new (r_insts (run nv_q nv_ops)) 7 = mkI 7 VNew IAlive 1 1 /\
+  map (fun s => (s_dgc s, s_nwgc s)) (r_samples (run nv_q nv_ops)) = [(0, 0); (0, 0); (1, 0); (1, 0); (1, 1)].
+Proof.
+  cbv zeta. split; [vm_compute; repeat constructor|]. split; [|vm_compute; auto].
   apply (single_writer_sole 1); [constructor|]. vm_compute. repeat constructor.
 Qed.
